@@ -117,6 +117,8 @@ type c08Run struct {
 	bodies               []*c08Body
 	upGates              []chan struct{}
 	downGates            []chan struct{}
+	interim              int // informational (103 Early Hints) responses the peer sends before the final header
+	interimGates         []chan struct{}
 	peerBytesAtFire      int64
 	peerBytes            int64
 	rstSeen              int32
@@ -532,6 +534,22 @@ func (p *c08H1Peer) serve(c net.Conn) {
 			r.hit("attemptFails", "attemptFails", false)
 			return
 		}
+		// 1xx prefix: interim response i+1 is sent once the client has processed interim response i
+		for i := 0; i < r.interim; i++ {
+			if _, err := io.WriteString(c, "HTTP/1.1 103 Early Hints\r\nLink: </style.css>; rel=preload\r\n\r\n"); err != nil {
+				return
+			}
+			select {
+			case <-r.gate(&r.interimGates, i):
+			case <-r.firedCh:
+				r.stall(nil)
+				return
+			case <-r.release:
+				return
+			case <-time.After(c08HardLimit):
+				return
+			}
+		}
 		// response: headers, then chunk j once the caller has consumed chunk j-1
 		hdr := fmt.Sprintf("HTTP/1.1 200 OK\r\nContent-Type: application/octet-stream\r\nContent-Length: %d\r\n\r\n", r.downChunks*c08Chunk)
 		if _, err := io.WriteString(c, hdr); err != nil {
@@ -690,6 +708,20 @@ func (p *c08H2Peer) handle(w http.ResponseWriter, rq *http.Request) {
 	if attempt < r.failFirst {
 		r.hit("attemptFails", "attemptFails", false)
 		panic(http.ErrAbortHandler) // RST_STREAM from the peer
+	}
+	for i := 0; i < r.interim; i++ {
+		w.Header().Set("Link", "</style.css>; rel=preload")
+		w.WriteHeader(103)
+		select {
+		case <-r.gate(&r.interimGates, i):
+		case <-r.firedCh:
+			stall()
+		case <-rq.Context().Done():
+			atomic.StoreInt32(&r.rstSeen, 1)
+			panic(http.ErrAbortHandler)
+		case <-time.After(c08HardLimit):
+			return
+		}
 	}
 	w.Header().Set("Content-Type", "application/octet-stream")
 	w.Header().Set("Content-Length", strconv.Itoa(r.downChunks*c08Chunk))
